@@ -185,6 +185,8 @@ impl Manifest {
         }
         serde_json::to_writer(&mut json, &ManifestOperation::End)?;
         file.write_all(&json).await?;
+        // `tokio::fs::File` writes in the background: wait for the write and get its error
+        file.flush().await?;
         if self.enable_fsync {
             file.sync_data().await?;
         }
